@@ -138,7 +138,10 @@ def check(repo: Repo, R) -> None:
             args = [ast.unparse(a) for a in rv.left.args]
             shape = type(rv.ops[0]) is op and args == [m.node.args.args[0].arg, m.node.args.args[1].arg]
             helpers.add(helper)
-        if not shape and total:
+        wrong_op = isinstance(rv, ast.Compare) and len(rv.ops) == 1 and isinstance(rv.left, ast.Call) and ast.unparse(rv.comparators[0]) == "0" and type(rv.ops[0]) is not op and [ast.unparse(a) for a in rv.left.args] == [m.node.args.args[0].arg, m.node.args.args[1].arg]
+        if wrong_op:
+            helpers.add(dotted(rv.left.func))
+        if not shape and total and not wrong_op:
             # an unrecognised but possibly correct spelling: direct comparison of the exact values is accepted
             direct = isinstance(rv, ast.Compare) and len(rv.ops) == 1 and type(rv.ops[0]) is op and nname is not None and ast.unparse(rv.left) == f"{nname}(self)" and ast.unparse(rv.comparators[0]) in (f"{nname}(to_prefixed(other))", f"{nname}(other)")
             if direct:
